@@ -46,7 +46,10 @@ var runners = map[string]runner{
 	"C07": {"model_checking", func(rep *report.Report, tier string) { getenum.Run(rep, tier); ribhist.RunC07Hist(rep, tier) }},
 	"C12": {"model_checking", malformed.Run},
 	"C08": {"model_checking", flushenum.Run},
-	"C04": {"model_checking", sesshist.RunC04},
+	"C04": {"model_checking", func(rep *report.Report, tier string) {
+		sesshist.RunC04(rep, tier)
+		conc.RunC04Concurrent(rep, tier)
+	}},
 	"C05": {"model_checking", func(rep *report.Report, tier string) {
 		sesshist.RunC05(rep, tier)
 		conc.RunC05Sched(rep, tier, ribhist.Budget(tier, 100*time.Second, 20*time.Minute))
@@ -73,6 +76,7 @@ var children = map[string]func(rep *report.Report, tier, part string){
 	"C19": compl.Child,
 	"C13": clienth.ChildC13,
 	"C14": clienth.ChildC14,
+	"C04": conc.ChildC06Concurrent,
 	"C06": func(rep *report.Report, tier, part string) {
 		if strings.HasPrefix(part, "lin/") {
 			conc.ChildC06Concurrent(rep, tier, part)
